@@ -5,7 +5,7 @@ option-flags byte; BoundSheet 8-bit cch, LABEL / STRING 16-bit cch, FORMAT, NAME
 under any CODEPAGE value (XlsEncoding::decode_to / high_byte), LABEL vs SST + LABELSST, NUMBER / RK / MULRK.
 IDEAL: bytes of page P read as the text they denote in P; BIFF8 strings are Unicode whatever CODEPAGE says; names,
 texts and numbers do not depend on the physical form.  Mismatches are SPEC-DRIFT; the deviations of the pinned code
-are named (known_findings.json, property X04): DbcsByteString, Biff5Format, Biff5Lbl, ShortString, UnsupportedCodePage.
+are named (known_findings.json, property X04): DbcsByteString, Biff5Format, Biff5Lbl, UnsupportedCodePage (ShortString was repaired in /repo).
 Biff8CodePage and BomSniff were repaired by /repo commit 4e8471f (they reach legal BIFF8 files: C19); the reader model
 is the repaired one, MC_Biff5_aswas.cfg keeps the reader as it was (AsWas = TRUE) and TLC has to refute it (self-test).
 
